@@ -365,7 +365,8 @@ def run(ctx):
     n = 25 if quick else 500
     forces = [{"kind": "fanout"}, {"kind": "fanout"}, {"kind": "pruned", "chains": True, "order": 6},
               {"kind": "corpus", "chains": True, "order": 5}, {"kind": "corpus", "shared": True, "order": 4},
-              {"kind": "pruned", "shared": True, "order": 5}, {"kind": "corpus", "unk": "absent", "order": 3}] + ([] if quick else [{"kind": "fanout"}] * 8)
+              {"kind": "pruned", "shared": True, "order": 5}, {"kind": "corpus", "unk": "absent", "order": 3},
+              {"kind": "corpus", "unk": "absent", "unk_in_ngrams": True, "order": 3}] + ([] if quick else [{"kind": "fanout"}] * 8)
     for ci in range(n):
         size = "small" if quick or ctx.rng.random() < 0.8 else "medium"
         force = forces[ci] if ci < len(forces) else ({"kind": "fanout"} if ctx.rng.random() < 0.03 else None)
